@@ -90,6 +90,12 @@ def bounded_sanitizers(tier, seed):
             "distinct_nontrivial": len(distinct), "exhaustive": True, "failures": failures}
 
 
+# value lists whose member names collide, are reserved by Enum itself, or collide only after a second renaming step
+ENUMS = {"EDash": ["member-", "-"], "ESunder": ["member_id_", "_id_"], "EUnders": ["_", "__", "___"], "ECase": ["Red", "red", "RED", "r-e-d"],
+         "EAffix": ["x", "X_", "x_", "_x", "-x"], "ENums": [1, -1, 10, 0], "EReserved": ["name", "value", "mro", "NAME"], "EDigits": ["1", "_1", "01", "1_"],
+         "EValue": ["value-", "VALUE_1", "value_1"]}
+
+
 def bounded_namespaces(tier, seed):
     """collision safety inside one namespace, end to end: colliding property / parameter / schema / enum-member / operation names in
     one generated package stay distinct, none dropped"""
@@ -105,7 +111,7 @@ def bounded_namespaces(tier, seed):
                      C.op("/u1", "get", "get-user", ["Users"]), C.op("/u2", "get", "get_user", ["users"]), C.op("/u3", "get", "getUser", ["USERS"]),
                      C.op("/d1", "get", "list-it", None), C.op("/d2", "get", "list_it", ["Default"])],
               {"Thing": C.obj({p: C.PRIMS["str"] for p in props}, ["user-id-2"]), "thing": C.obj({"a": C.PRIMS["str"]}), "THING": C.obj({"b": C.PRIMS["str"]}),
-               "Col": {"type": "string", "enum": ["a-b", "a b", "a_b", "A_B", "1", "-1", ""]}})
+               "Col": {"type": "string", "enum": ["a-b", "a b", "a_b", "A_B", "1", "-1", ""]}, **{k: {"type": ("integer" if isinstance(v[0], int) else "string"), "enum": v} for k, v in ENUMS.items()}})
     base = None
     failures, n = [], 0
     try:
@@ -150,11 +156,28 @@ def bounded_namespaces(tier, seed):
                     failures.append({"id": "bounded:namespace:operations-collapse", "detail": f"{cls.name}: method names {names} (a later definition replaces an earlier one)", "input": {"module": f}})
                 elif key in want and len(set(names)) != want[key]:
                     failures.append({"id": "bounded:namespace:operations-missing", "detail": f"{cls.name}: {len(set(names))} methods {sorted(set(names))} for {want[key]} operations", "input": {"module": f}})
+        # every enum: one member per declared value, each value recoverable, in a fresh interpreter (duplicate or reserved member names fail at import)
+        import json as _json
+        from pyopenapi_gen.core.utils import NameSanitizer as _NS
+        plan = [[k, _NS.sanitize_module_name(k), _NS.sanitize_class_name(k), v] for k, v in dict(ENUMS, Col=["a-b", "a b", "a_b", "A_B", "1", "-1", ""]).items()]
+        code = ("import json, importlib\nbad = []\nfor name, mod, cls, values in json.loads(%r):\n"
+                "    try:\n        E = getattr(importlib.import_module('nsp.models.' + mod), cls)\n        got = [m.value for m in E]\n"
+                "        if sorted(map(str, got)) != sorted(map(str, values)) or len(got) != len(values):\n            bad.append([name, 'members ' + repr(got)])\n"
+                "        for v in values:\n            if E(v).value != v: bad.append([name, 'lookup ' + repr(v)])\n"
+                "    except Exception as e:\n        bad.append([name, type(e).__name__ + ': ' + str(e)[:160]])\nprint('RESULT ' + json.dumps(bad))\n") % _json.dumps(plan)
+        ok, out = G.import_modules(base, [], extra_code=code)
+        n += len(plan)
+        line = next((l for l in out.splitlines() if l.startswith("RESULT ")), None)
+        if line is None:
+            failures.append({"id": "bounded:namespace:enum-members:harness", "detail": out[-400:], "input": {}})
+        else:
+            for name, why in _json.loads(line[7:]):
+                failures.append({"id": f"bounded:namespace:enum-members:{name}", "detail": f"enum {name} {ENUMS.get(name)}: {why}", "input": {"enum": name, "values": ENUMS.get(name)}})
     finally:
         if base:
             import shutil
             shutil.rmtree(base, ignore_errors=True)
-    return {"function": "generate_client on a document with colliding property / parameter / schema / operation names", "backend": "bounded",
+    return {"function": "generate_client on a document with colliding property / parameter / schema / operation / enum-member names", "backend": "bounded",
             "bound": "1 hand-built document (9 colliding properties, 3 parameters, 3 schemas, 8 operations incl. colliding ids across tag spellings)", "evaluations": n, "distinct_nontrivial": 2, "failures": failures}
 
 
